@@ -300,4 +300,193 @@ theorem Track.endBlock {s s' : State} {T A B OA OB : List Nat} {N M : Nat} (hR :
     have hdivP : wsum (unpaidOf s') (OA' ++ A') / M ≤ wsum (unpaidOf s) (OA ++ A) / M := Nat.div_le_div_right hP'
     omega
 
+-- ---------------------------------------------------------------------------------------------
+-- histories
+
+/-- is the operation an end-block? -/
+def Op.isEnd : Op → Bool
+  | .endBlock => true
+  | _ => false
+
+/-- number of end-blocks of a history -/
+def endBlocks (ops : List Op) : Nat := ops.countP Op.isEnd
+
+/-- no end-block of the history halts -/
+def noHalt : State → List Op → Bool
+  | _, [] => true
+  | s, op :: rest => (step s op).2 != .halt && noHalt (step s op).1 rest
+
+/-- every parameter update of the history keeps the batch sizes at least `N` (bets) and `M` (participations) -/
+def batchAtLeast (N M : Nat) : List Op → Bool
+  | [] => true
+  | .setParams p :: rest => decide (N ≤ p.betBatch) && decide (M ≤ p.obBatch) && batchAtLeast N M rest
+  | _ :: rest => batchAtLeast N M rest
+
+/-- every message of the history is signed by a user account (Boolean form of `Op.userSigned'`) -/
+def signedOk : List Op → Bool
+  | [] => true
+  | .marketAdd c _ _ _ _ _ _ :: rest => !isModuleAcc c && signedOk rest
+  | .deposit c _ _ _ pd :: rest => !isModuleAcc (depositFor c pd) && signedOk rest
+  | .wager c _ _ _ _ :: rest => !isModuleAcc c && signedOk rest
+  | _ :: rest => signedOk rest
+
+theorem signedOk_spec : ∀ (ops : List Op), signedOk ops = true → ∀ op ∈ ops, op.userSigned' := by
+  intro ops
+  induction ops with
+  | nil => intro _ op hop; cases hop
+  | cons o rest ih =>
+    intro h op hop
+    cases o <;> simp only [signedOk, Bool.and_eq_true, Bool.not_eq_true'] at h <;>
+      rcases List.mem_cons.mp hop with rfl | hop <;>
+      first
+        | exact ih h.2 op hop
+        | exact ih h op hop
+        | exact h.1
+        | trivial
+
+theorem signedOk_of {ops : List Op} (h : ∀ op ∈ ops, op.userSigned') : signedOk ops = true := by
+  induction ops with
+  | nil => rfl
+  | cons o rest ih =>
+    have h1 := h o (List.mem_cons_self ..)
+    have h2 := ih (fun op hop => h op (List.mem_cons_of_mem _ hop))
+    cases o <;> simp only [signedOk, Bool.and_eq_true, Bool.not_eq_true'] <;>
+      first
+        | exact ⟨h1, h2⟩
+        | exact h2
+
+theorem blocks_zero {N M : Nat} {s : State} {A OA : List Nat} (h : blocks N M s A OA = 0) : A = [] ∧ OA = [] := by
+  unfold blocks at h
+  by_cases hA : A = []
+  · refine ⟨hA, ?_⟩
+    by_cases hO : OA = []
+    · exact hO
+    · simp [hA, hO] at h
+  · simp [hA] at h
+
+/-- C05, the induction over a history: through any operations signed by user accounts in which no end-block halts and
+    the batch sizes stay at least `N`, `M`, the tracked markets stay at the front of the pipeline and the block
+    potential drops by at least the number of end-blocks -/
+theorem Track.run {T : List Nat} {N M : Nat} (hN : 0 < N) (hM : 0 < M) : ∀ (ops : List Op) (s : State) (A B OA OB : List Nat),
+    Reach s → Track s T A B OA OB → signedOk ops = true → noHalt s ops = true → batchAtLeast N M ops = true →
+    N ≤ s.params.betBatch → M ≤ s.params.obBatch →
+    ∃ A' B' OA' OB', Track (Core.run s ops) T A' B' OA' OB' ∧
+      blocks N M (Core.run s ops) A' OA' ≤ blocks N M s A OA - endBlocks ops := by
+  intro ops
+  induction ops with
+  | nil =>
+    intro s A B OA OB _ hT _ _ _ _ _
+    exact ⟨A, B, OA, OB, hT, by show blocks N M s A OA ≤ blocks N M s A OA - endBlocks []; simp [endBlocks]⟩
+  | cons op rest ih =>
+    intro s A B OA OB hR hT hwf hnh hba hNb hMb
+    have hwf1 : op.userSigned' := signedOk_spec _ hwf op (List.mem_cons_self ..)
+    have hwf2 : signedOk rest = true := signedOk_of (fun o ho => signedOk_spec _ hwf o (List.mem_cons_of_mem _ ho))
+    have hR' := step_reach s op hR hwf1
+    simp only [noHalt, Bool.and_eq_true, bne_iff_ne, ne_eq] at hnh
+    -- the batch sizes after the operation
+    have hpar : N ≤ (step s op).1.params.betBatch ∧ M ≤ (step s op).1.params.obBatch ∧ batchAtLeast N M rest = true := by
+      rcases step_params s op with e | ⟨p, rfl, _, e⟩
+      · rw [e]
+        refine ⟨hNb, hMb, ?_⟩
+        cases op <;> first | exact hba | (simp only [batchAtLeast, Bool.and_eq_true] at hba; exact hba.2)
+      · rw [e]
+        simp only [batchAtLeast, Bool.and_eq_true, decide_eq_true_eq] at hba
+        exact ⟨hba.1.1, hba.1.2, hba.2⟩
+    show ∃ A' B' OA' OB', Track (Core.run (step s op).1 rest) T A' B' OA' OB' ∧
+      blocks N M (Core.run (step s op).1 rest) A' OA' ≤ _
+    by_cases hend : op = .endBlock
+    · subst hend
+      have hstep : ∀ s', endBlockO s = some s' → step s .endBlock = (s', .ok) := by
+        intro s' he
+        show Core.endBlock s = _
+        unfold Core.endBlock
+        rw [he]
+      cases he : endBlockO s with
+      | none =>
+        have : (step s .endBlock).2 = .halt := by
+          show (Core.endBlock s).2 = _
+          unfold Core.endBlock
+          rw [he]
+        exact absurd this hnh.1
+      | some s' =>
+        rw [hstep s' he] at hnh hpar hR' ⊢
+        obtain ⟨A1, B1, OA1, OB1, hT1, hb1⟩ := Track.endBlock hR hT he hN hNb hM hMb
+        obtain ⟨A2, B2, OA2, OB2, hT2, hb2⟩ := ih s' A1 B1 OA1 OB1 hR' hT1 hwf2 hnh.2 hpar.2.2 hpar.1 hpar.2.1
+        refine ⟨A2, B2, OA2, OB2, hT2, ?_⟩
+        have : endBlocks (Op.endBlock :: rest) = endBlocks rest + 1 := by
+          unfold endBlocks
+          rw [List.countP_cons]
+          rfl
+        rw [this]
+        show blocks N M (Core.run s' rest) A2 OA2 ≤ _
+        omega
+    · have hF := step_msgFrame s op hR.inv.sortedParts hend
+      obtain ⟨B1, hT1, hb1⟩ := Track.msg N M hR hT hF
+      obtain ⟨A2, B2, OA2, OB2, hT2, hb2⟩ := ih (step s op).1 A B1 OA OB hR' hT1 hwf2 hnh.2 hpar.2.2 hpar.1 hpar.2.1
+      refine ⟨A2, B2, OA2, OB2, hT2, ?_⟩
+      have : endBlocks (op :: rest) = endBlocks rest := by
+        unfold endBlocks
+        rw [List.countP_cons]
+        have : op.isEnd = false := by cases op <;> first | rfl | exact absurd rfl hend
+        simp [this]
+      rw [this, ← hb1]
+      exact hb2
+
+-- ---------------------------------------------------------------------------------------------
+-- what "completely settled" means on the stores
+
+/-- Market `u` is completely settled: its book is marked SETTLED and every participation is paid, every bet on it is
+    settled, the pending index lists no bet of it, and it waits in neither work queue. -/
+def FullySettled (s : State) (u : Nat) : Prop :=
+  (∃ b, getBook s u = some b ∧ b.status = OB_SETTLED ∧ ∀ p ∈ b.parts, p.isSettled = true) ∧
+  (∀ x ∈ s.bets, x.market = u → x.status = BS_SETTLED) ∧
+  (∀ x ∈ s.pending, x.1 ≠ u) ∧ u ∉ s.mqueue ∧ u ∉ s.obqueue
+
+theorem Done.fully {s : State} {u : Nat} (hR : Reach s) (hd : Done s u) : FullySettled s u := by
+  obtain ⟨b, hb, hst⟩ := statusOf_some hd.1
+  obtain ⟨hbm, hbu⟩ := getBook_mem hb
+  have hna : b.status ≠ OB_ACTIVE := by rw [hst]; decide
+  refine ⟨⟨b, hb, hst, ?_⟩, ?_, ?_, ?_, ?_⟩
+  · have h0 := hd.2
+    unfold unpaidOf at h0
+    rw [hb] at h0
+    unfold Book.unpaid at h0
+    rw [List.countP_eq_zero] at h0
+    intro p hp
+    have := h0 p hp
+    simpa using this
+  · intro x hx hm
+    have := hR.inv.closedNoOpen b hbm hna x hx (by rw [hm, hbu])
+    unfold Bet.isOpen at this
+    simpa using this
+  · intro x hx hxu
+    have h0 := pendCount_zero_of_status hR.idx hR.inv hd.1 (by decide)
+    unfold pendCount at h0
+    rw [List.length_eq_zero_iff, List.filter_eq_nil_iff] at h0
+    exact h0 x hx (by simpa using hxu)
+  · intro hin
+    have := hR.q.mActive u hin
+    rw [hd.1] at this; cases this
+  · intro hin
+    have := hR.q.oResolved u hin
+    rw [hd.1] at this; cases this
+
+/-- everything that is queued in state `s`, up to position `k` of the market queue, as a tracked set -/
+theorem track_init {s : State} (hR : Reach s) (k : Nat) :
+    Track s (s.obqueue ++ s.mqueue.take k) (s.mqueue.take k) (s.mqueue.drop k) s.obqueue [] := by
+  refine ⟨(List.take_append_drop k s.mqueue).symm, by simp, fun a ha => List.mem_append_right _ ha, ?_,
+    fun a ha => List.mem_append_left _ ha, (fun _ hb => nomatch hb), fun _ => rfl, ?_⟩
+  · intro b hb hbT
+    rcases List.mem_append.mp hbT with h | h
+    · have h1 := hR.q.oResolved b h
+      have h2 := hR.q.mActive b (List.mem_of_mem_drop hb)
+      rw [h1] at h2; cases h2
+    · have hnd := hR.q.nodupM
+      rw [← List.take_append_drop k s.mqueue] at hnd
+      exact (List.nodup_append.mp hnd).2.2 b h b hb rfl
+  · intro u hu
+    rcases List.mem_append.mp hu with h | h
+    · exact Or.inr (Or.inl h)
+    · exact Or.inl h
+
 end Sge.Core
